@@ -64,5 +64,8 @@ var FuzzTargets = func() []TypeDesc {
 		// 27..28: implementers that also carry the ProtoMessage() marker (MsgPM: Message codec; CustomSPM: plain reflection struct)
 		fst(fk(KInt), fnm("MsgPM"), fptr(fnm("MsgPM")), fsl(fnm("MsgPM")), fmp(fk(KString), fnm("MsgPM")), fnm("CustomSPM"), fsl(fptr(fnm("CustomSPM"))), fk(KString)),
 		fnm("MsgPM"),
+		// 29..31: implementers that rely on the caller for room (copy-based MarshalTo, Marshal assuming len(b) >= Size())
+		fst(fk(KInt), fnm("CustomCopy"), fptr(fnm("MsgTrust")), fsl(fnm("CustomCopy")), fmp(fk(KString), fnm("MsgTrust")), fk(KString)),
+		fnm("CustomCopy"), fptr(fnm("MsgTrust")),
 	}
 }()
